@@ -264,7 +264,11 @@ def closure_entry_facts(crate, can):
         if len(ev["args"]) < 2 or ev["args"][1] != agg:
             continue
         desc = ev["args"][0]
+        if desc[0] == "addr":
+            desc = pfx.iter_desc(ev)        # adaptor called on `&mut iterator`
         item = ("arg", 2)
+        if ev["key"].endswith("::filter"):
+            continue                        # filter hands the closure a reference to the item
         for a in pfx.item_facts(desc, ("ITEM",)):
             for ta in tr_atom_item(cm, a, item):
                 out.append(ta)
@@ -276,6 +280,10 @@ def tr_atom_item(cm, a, item):
     for x in a:
         if x == ("ITEM",):
             combos = [c + [item] for c in combos]
+        elif x == ("len", ("ITEM",)):
+            # length of a slice-typed item: spelled like `param.len()` in the closure
+            n = item[1] if item[0] == "arg" else 2
+            combos = [c + [("len", ("at", "A%d" % n, None, ("e",), ()))] for c in combos]
         elif isinstance(x, tuple):
             vs = cm.tr_all(x)
             if not vs:
